@@ -1,4 +1,5 @@
 """C02 - Compression is transparent, lossless and atomically published."""
+import gc
 import hashlib
 import shutil
 from pathlib import Path
@@ -246,6 +247,12 @@ def _do_compress(w, o, fault_at=None, fault_kind=None):
             sr.close()
         except Exception:  # noqa
             pass
+    # an interrupted mtscomp.Writer never closes its thread pool: drop every reference to it (exception tracebacks hold
+    # the frames) and let the garbage collector terminate the pool, otherwise thousands of fault points leak threads
+    if isinstance(r, BaseException):
+        r = r.with_traceback(None)
+    del sr
+    gc.collect()
     if killed:
         return "fault"
     if r is ctx.CRASH:
@@ -323,6 +330,10 @@ def _do_scratch(w, o, fault_at=None):
             sr.close()
         except Exception:  # noqa
             pass
+    if isinstance(r, BaseException):
+        r = r.with_traceback(None)
+    del sr
+    gc.collect()
     if killed:
         return "fault", (sdir or w.d) / w.bin.name
     if r is ctx.CRASH:
